@@ -20,7 +20,7 @@
 (* TLC's counterexample for the code as found (F15).                       *)
 (***************************************************************************)
 EXTENDS Raster, Json
-CONSTANTS MaxN, BoxStride, CatStride, PairStride, SameStride, AttrStride, TripleStride, ShapeFrom
+CONSTANTS MaxN, BoxStride, CatStride, PairStride, SameStride, AttrStride, TripleStride, ValueStride, ShapeFrom
 VARIABLES c, pc, k, rast, res
 vars == <<c, pc, k, rast, res>>
 
@@ -61,7 +61,7 @@ Pick(ax, n) == LET w == Hi(ax) - Lo(ax) + 1
 (* ---- descriptors (integers and strings only, so that they form one set) ---- *)
 TplD == [T : 1..MaxN, F : 1..MaxN, order : {"ft", "tf"}, sp : 1..3, su : {0}, sa : {0}]
 D(td, gk, a, b, d, e, g2, mm) ==
-    [T |-> td.T, F |-> td.F, order |-> td.order, sp |-> td.sp, su |-> 0, sa |-> 0, gk |-> gk, a |-> a, b |-> b, d |-> d, e |-> e, g2 |-> g2, g3 |-> 0, mm |-> mm]
+    [T |-> td.T, F |-> td.F, order |-> td.order, sp |-> td.sp, su |-> 0, sa |-> 0, gk |-> gk, a |-> a, b |-> b, d |-> d, e |-> e, g2 |-> g2, g3 |-> 0, sv |-> 0, mm |-> mm]
 Hash(x) == x.a * 31 + x.d * 17 + x.b * 7 + x.e * 3 + x.T + 2 * x.F + x.sp + (IF x.order = "ft" THEN 0 ELSE 5)
 \* boxes: every time pair with a varying frequency pair, and every frequency pair with a varying time pair
 BoxD(td) == LET ta == TAxis(Tpl(td))  fa == FAxis(Tpl(td)) IN
@@ -75,6 +75,14 @@ CatD(td) == {D(td, "cat", i, m, 0, 0, 0, 0) : i \in 1..Len(Cat), m \in 1..2}
 \* a time coordinate of the box equals one of its frequency coordinates as a number and falls into a different bin there
 Coincide(y) == LET tp == Tpl([y EXCEPT !.su = 1]) IN
     \E v \in {y.a, y.d} \cap {y.b, y.e} : BinClamp(TAxis(tp), v) # BinClamp(FAxis(tp), v)
+\* dtype / values / fill that a float32 raster cannot carry: decimals in float64, labels beyond 2^24 in int32 and uint32,
+\* the top of uint8, and decimals in float32 itself (there the float32 rounding IS the content: Raster!Cast)
+Special == <<[dt |-> "float64", vals |-> <<"0.1", "0.7", "1/3">>, fill |-> "0.3"],
+             [dt |-> "float64", vals |-> <<"1/3", "0.3", "0.1">>, fill |-> "0"],
+             [dt |-> "int32",   vals |-> <<"16777217", "2147483647", "5">>, fill |-> "-1"],
+             [dt |-> "uint32",  vals |-> <<"4294967295", "16777217", "3">>, fill |-> "0"],
+             [dt |-> "uint8",   vals |-> <<"255", "1", "2">>, fill |-> "7"],
+             [dt |-> "float32", vals |-> <<"0.1", "0.7", "0.3">>, fill |-> "1/3"]>>
 MarksCells(y) == BoxCells(Tpl(y), <<"clamp", "clamp">>, <<y.a, y.b, y.d, y.e>>) # {}
 Descriptors ==
     UNION {LET bx == BoxD(td)  ct == CatD(td) IN
@@ -98,6 +106,11 @@ Descriptors ==
          \* lists of three (A, B, A'): A' is A again (g3 = 1) or another box in the same bins (g3 = 2), B overlaps them;
          \* three distinct values, so the cells of A under B must end up with the value of A' -- painter's order
          \cup  {[x EXCEPT !.g2 = j, !.g3 = q] : x \in {y \in bx : Hash(y) % TripleStride = 1 /\ MarksCells(y)}, j \in 1..2, q \in 1..2}
+         \* values, fill and dtype where "the value" and "the value as a float32" differ (sv = 1..6, see Special): single boxes,
+         \* lists of two and of three
+         \cup  {[x EXCEPT !.sv = q] : x \in {y \in bx : Hash(y) % ValueStride = 2 /\ MarksCells(y)}, q \in 1..Len(Special)}
+         \cup  {[x EXCEPT !.sv = q, !.g2 = 1] : x \in {y \in bx : Hash(y) % (2 * ValueStride) = 3 /\ MarksCells(y)}, q \in 1..Len(Special)}
+         \cup  {[x EXCEPT !.sv = q, !.g2 = 2, !.g3 = 1] : x \in {y \in bx : Hash(y) % (2 * ValueStride) = 5 /\ MarksCells(y)}, q \in 1..Len(Special)}
          \* stale or missing step attributes (sa = 1, 2, 3): boxes, and a few catalogue shapes
          \cup  {[x EXCEPT !.sa = q] : x \in {y \in bx : Hash(y) % AttrStride = 3}, q \in 1..3}
          \cup  {[x EXCEPT !.sa = q] : x \in {y \in ct : Hash(y) % (4 * CatStride) = 3}, q \in 1..2}
@@ -133,6 +146,11 @@ Snap(ax, v) == IF v < Coord(ax, 1) \/ v > Coord(ax, ax.n) THEN v ELSE Coord(ax, 
 SameBins(x, tp) == G("BoundingBox", <<Snap(TAxis(tp), x.a), Snap(FAxis(tp), x.b), Snap(TAxis(tp), x.d), Snap(FAxis(tp), x.e)>>)
 Third(x, tp) == IF x.g3 = 1 THEN First(x) ELSE SameBins(x, tp)
 Fills == <<0, -1, 7>>
+\* integers as numerals (a sequence, so that it is exported as a JSON array)
+Numerals(v) == CASE Len(v) = 0 -> <<>>
+                 [] Len(v) = 1 -> <<ToString(v[1])>>
+                 [] Len(v) = 2 -> <<ToString(v[1]), ToString(v[2])>>
+                 [] OTHER      -> <<ToString(v[1]), ToString(v[2]), ToString(v[3])>>
 Concrete(x) ==
     LET tp == Tpl(x)
         n  == Hash(x)
@@ -146,7 +164,9 @@ Concrete(x) ==
                 [] x.mm = 2 -> IF Len(gs) = 1 THEN <<1, 2>> ELSE <<1, 2, 3>>
                 [] OTHER    -> IF sc /\ x.g3 = 0 THEN <<5>> ELSE IF Len(gs) = 1 THEN <<1 + (n % 3)>>
                                ELSE IF Len(gs) = 2 THEN <<2 + (n % 2), 4>> ELSE <<2 + (n % 2), 4, 6>>
-    IN  [tpl |-> tp, geoms |-> gs, values |-> vs, scalar |-> sc, fill |-> fl, dt |-> dt]
+    IN  IF x.sv = 0 THEN [tpl |-> tp, geoms |-> gs, values |-> Numerals(vs), scalar |-> sc, fill |-> ToString(fl), dt |-> dt]
+        ELSE [tpl |-> tp, geoms |-> gs, values |-> SubSeq(Special[x.sv].vals, 1, Len(gs)), scalar |-> FALSE,
+              fill |-> Special[x.sv].fill, dt |-> Special[x.sv].dt]
 
 (* ---- Impl: rasterize as written ---- *)
 Case == Concrete(c)
@@ -164,7 +184,7 @@ BurnOne(cs, a, r, j) ==
         ix == IF BoxLike(g) THEN BoxIdx(cs.tpl, CC, BoxOf(g)) ELSE <<>>           \* boxes: closed form (LawBoxIsCentreRule)
     IN  [cell \in DOMAIN r |-> LET st == IF BoxLike(g) THEN BoxStatus(ix, a, cell) ELSE StatusM(mp, Areal(g), a, cell)
                                IN  IF st = "in" \/ (st = "either" /\ (a \/ ~Areal(g))) THEN Val(cs, j) ELSE r[cell]]
-Blank(cs) == [cell \in Grid(cs.tpl) |-> cs.fill]
+Blank(cs) == [cell \in Grid(cs.tpl) |-> FillOf(cs)]
 Raised(e) == [raised |-> e, dims |-> <<>>, tc |-> <<>>, fc |-> <<>>, cells |-> <<>>]
 \* xr.DataArray(data=rast.T, dims=(xdim, ydim), coords=template coords): sizes must agree
 Label(tp, r) ==
